@@ -169,6 +169,9 @@ func Run(p *ir.Program, id, tier, outDir, knownPath string, t0 time.Time) int {
 		fmt.Printf("UNDECIDED property=%s: no check registered\n", id)
 		return 2
 	}
+	if boxedTypes == nil {
+		initBoxed(p)
+	}
 	c := &Ctx{P: p, Prop: id, Tier: tier, Level: def.level}
 	func() {
 		defer func() {
